@@ -1600,6 +1600,8 @@ def run_check(ctx, which):
         "operators' forward / backward do not throw; node ids are in range (out-of-range ids abort by design and are never generated); vectors of size >= 2 for the functions:: arithmetic (size 1 takes the *Scalar operators)",
         "devices::Naive only (plain build; thorough also under ASan+UBSan with leak detection); functions::dropout is expanded as RandomBernoulli, MultiplyConst, Multiply in the order g++ creates them (checked with Graph::dump)",
         "exactness claims (k calls add k times the same) are checked only where all gradients involved are dyadic k/16 with |x| <= 2^18; the number of skipped pairs is reported",
+        "hypotheses of the Coq theorems (Graph/Theorems.v): FamOK - every operator's forward assigns all its outputs, forward_shape returns one shape per output, an operator with inner values (Parameter) takes no arguments; the per-operator backward is modelled as the list of increments it ADDS to the argument gradients (every *_bw kernel and BACKWARD body only does gx += ..., by inspection; the same node in two argument positions receives both increments); for C06_blocked_gets_only_zero additionally ZeroOK (zeros+zeros = zeros; a backward fed with all-zero upstream gradients adds zeros) and, for the identity, x + 0 = x, which float32 violates bitwise exactly for x = -0.0f (D12)",
+        "theorems are closed under the global context (no axioms); they are about the model for ALL operator families / histories, the example family of Graph/Example.v shows the hypotheses are satisfiable",
     ]
     if not res["ok"]:
         ctx.proof_broken()
